@@ -1310,6 +1310,14 @@ func (r *Run) DoDisk(d *DiskOp) {
 			r.W.Count.Inc("fault.tail_partial_batch")
 			r.Faults++
 		}
+	case "tail_unterminated":
+		// what a write cut one byte short leaves: a whole last event without
+		// its newline
+		if b, err := os.ReadFile(lp); err == nil && len(b) > 1 && b[len(b)-1] == '\n' && b[len(b)-2] == '}' {
+			os.Truncate(lp, int64(len(b)-1))
+			r.W.Count.Inc("fault.tail_unterminated")
+			r.Faults++
+		}
 	case "tail_fragment":
 		// what a torn append leaves: a prefix of a JSON line without newline
 		f, err := os.OpenFile(lp, os.O_APPEND|os.O_WRONLY, 0o644)
